@@ -1,6 +1,8 @@
 package main
 
 import (
+	"time"
+	"go/constant"
 	"fmt"
 	"sort"
 	"strings"
@@ -87,6 +89,27 @@ func rulesC20(e *Engine, r *Report) {
 				return partOK(l) && l.Has("cmpExists") && (l.Has("inLog") || l.HasAll("beyondReceived", "isLogged"))
 			}, "the partial's condition, the companion exists, and (log arm | state logged)")
 		r.Min("R20.2", "companion removals in the cleaner", n, 1)
+	}
+
+	// ---------------------------------------------------------------- R20.6
+	r.Rule("R20.6", "only partials older than a day are considered: every call of the stray cleaner passes a constant age of at least 24 h (a transfer in progress - a prepared partial whose first chunk has not landed yet has no companion - must never be young enough to qualify), and the age is compared with the partial's modification time (R20.2 `aged`)")
+	{
+		n := 0
+		for _, fn := range e.FuncsIn("stage") {
+			for _, in := range e.findInstrs(fn, "call(stage.(*Stage).cleanStrays)(§, §)", false) {
+				n++
+				arg := in.(ssa.CallInstruction).Common().Args[1]
+				okAge := false
+				if c, ok := arg.(*ssa.Const); ok && c.Value != nil {
+					if v, exact := constant.Int64Val(constant.ToInt(c.Value)); exact {
+						okAge = v >= int64(24*time.Hour)
+					}
+				}
+				r.Check(okAge, "R20.6", e.ShortName(fn)+": cleanStrays(age >= 24h)", e.InstrPos(in),
+					"the stray cleaner is run with an age below one day (or a non-constant age): partials of transfers still in progress become candidates: "+e.Canon(arg), 1, e.Canon(arg))
+			}
+		}
+		r.Min("R20.6", "calls of the stray cleaner", n, 1)
 	}
 
 	// ---------------------------------------------------------------- R20.3
